@@ -92,6 +92,10 @@ def run(tier, v):
         conns = [traffic.connection(rng, 900 + 20 * t + c, ("http", "tls", "tcp")[c % 3], nid, maxpieces=3) for c in range(9)]
         frames = [f for c in conns for f in c["frames"]]
         eps = [traffic.endpoints(f) for f in frames]
+        # frames no analyzer reads (good TCP segments behind link-layer headers the parsers do not know, noise): part of the whole
+        # trace, never of an admitted sub-trace -- whatever the filter makes of them, nothing may be reported for them
+        extra = traffic.unreadable(rng, nid, 12) + traffic.noise(rng, nid, 8)
+        extra_at = sorted(rng.randrange(len(frames) + 1) for _ in extra)
         first = [traffic.endpoints(c["frames"][0]) for c in conns]          # the SYN of each connection: client -> server
         A_ = lambda a: {"v": a["v"], "b": a["b"]}
         PF = lambda sp, dp, any_: [{"sp": sp, "dp": dp, "sr": [], "dr": [], "any": any_}]
@@ -117,6 +121,9 @@ def run(tier, v):
         if len(admits) != len(rcfgs):
             raise vlib.ToolError("TV_C15R decided %d of %d configurations" % (len(admits), len(rcfgs)))
         hexes = [f.hex() for f in frames]
+        whole = list(hexes)
+        for pos, f in sorted(zip(extra_at, extra), key=lambda x: -x[0]):
+            whole.insert(pos, f.hex())
         for crate in ("tcp", "http", "tls", "uni"):
             for ci, cfg in enumerate(rcfgs):
                 sub = [f for f, ad in zip(hexes, admits[ci + 1]) if ad]
@@ -124,10 +131,10 @@ def run(tier, v):
                 n_rich += 1
                 meta[k] = {"shape": {"rich_trace": t, "connections": [c["style"] for c in conns]}, "analyzer": crate, "trace": "mix", "filter": cfg, "frames": hexes, "admitted_subtrace": sub, "class": []}
                 base = {"crate": crate, "matcher": True, "cfg": {"http": True, "tcp": True, "tls": True, "matcher": True}}
-                ana.append(dict(base, id="F|%d|%s|%s|%d" % k, frames=hexes, filter=cfg))
+                ana.append(dict(base, id="F|%d|%s|%s|%d" % k, frames=whole, filter=cfg))
                 ana.append(dict(base, id="U|%d|%s|%s|%d" % k, frames=sub, filter=None))
                 if crate != "uni" and ci % 3 == 0:
-                    pool.append({"id": "P3|%d|%s|%s|%d" % k, "crate": crate, "workers": 3, "queue": 256, "batch": 2, "timeout_ms": 5, "dispatchers": [hexes], "filter": cfg, "matcher": True, "perturb": 0})
+                    pool.append({"id": "P3|%d|%s|%s|%d" % k, "crate": crate, "workers": 3, "queue": 256, "batch": 2, "timeout_ms": 5, "dispatchers": [whole], "filter": cfg, "matcher": True, "perturb": 0})
                     if sub:
                         pool.append({"id": "Q3|%d|%s|%s|%d" % k, "crate": crate, "workers": 3, "queue": 256, "batch": 2, "timeout_ms": 5, "dispatchers": [sub], "filter": None, "matcher": True, "perturb": 0})
                     else:
